@@ -53,6 +53,7 @@ def run(chk) -> None:
     from ._engine import engine_view
     chk.extra["helpers_inlined"] = engine_view(repo)
     mrp = repo.module(RP)
+    Interp.register_module_classes(mrp)
     cases = 0
     # ---------------------------------------------------------------- R1 truth tables (exhaustive for 1..3 operands)
     for cls, (op, _f) in COMBINATORS.items():
@@ -205,9 +206,17 @@ def run(chk) -> None:
             d = expand(n.func.value, n, depth=1)
             seed_name = None
             ok = False
-            if isinstance(d, ast.IfExp) and isinstance(d.body, ast.Call) and call_name(d.body) == "random.Random" and len(d.body.args) == 1 and isinstance(d.body.args[0], ast.Name):
-                seed_name = d.body.args[0].id
-                ok = set(atoms(d.test, True)) == {(f"None is {seed_name}", False)} and seed_name in params
+            def _seeded(x: ast.AST) -> str | None:
+                return x.args[0].id if isinstance(x, ast.Call) and call_name(x) == "random.Random" and len(x.args) == 1 and isinstance(x.args[0], ast.Name) else None
+            if isinstance(d, ast.IfExp):
+                # either arm may be the seeded generator; it must be the arm taken exactly when `seed is not None`
+                for arm, pol in ((d.body, True), (d.orelse, False)):
+                    if _seeded(arm) is not None:
+                        seed_name = _seeded(arm)
+                        ok = set(atoms(d.test, pol)) == {(f"None is {seed_name}", False)} and seed_name in params
+            elif _seeded(d) is not None:
+                seed_name = _seeded(d)
+                ok = seed_name in params  # Random(None) seeds itself from the OS: still one generator per given seed
             chk.ob("C07.R3", f"{qn}: the random draw uses random.Random(seed) whenever a seed is given (`seed is not None`, so seed 0 counts)", ok, m=mrp, node=n, fn=f, instance=f"seeded-draw:{qn}",
                    reason=f"draw receiver is `{ast.unparse(d)}`")
         owner = qn.split(".")[0]
